@@ -744,7 +744,15 @@ func (c *FnCtx) evalCall(env *SpecEnv, e *Expr) (Val, error) {
 		}
 	}
 	// user-defined spec functions
-	if sf := c.eng.cs.SpecFuncs[e.Name]; sf != nil {
+	pp := ""
+	if env.pkg != nil {
+		pp = env.pkg.Path()
+	}
+	sf, lerr := c.eng.cs.lookupSpecFunc(e.Name, pp)
+	if lerr != nil {
+		return Val{}, lerr
+	}
+	if sf != nil {
 		if err := evalArgs(); err != nil {
 			return Val{}, err
 		}
@@ -792,6 +800,9 @@ func (c *FnCtx) applySpecFunc(env *SpecEnv, sf *SpecFunc, args []Val, e *Expr) (
 		return Val{}, fmt.Errorf("spec function %s: unknown result type %s", sf.Name, sf.Result)
 	}
 	fn := sym("spec|" + sf.Name)
+	if len(c.eng.cs.SpecFuncByName[sf.Name]) > 1 {
+		fn = sym("spec|" + sf.PkgPath + "|" + sf.Name)
+	}
 	c.declareFun(fn, sorts, leafSort(kindOf(rt)))
 	c.usedSpecFns[sf.Name] = true
 	t := fn
